@@ -131,6 +131,20 @@ def run_date(shard, ctx):
                     report(r, ID, None, {'fn': 'DATE', 'y': y, 'm': m, 'd': d}, [b[:2] for b in bad], exp, monitor='calendar-closed-form')
                 if not (1 <= m <= 12 and 1 <= d <= 28):
                     nt += 1
+    # the end of the calendar: months or days that carry the date past 9999-12-31 are the error value #NUM! (a cell cannot hold that day)
+    if pts is None and shard['half'] == 0:
+        for (y, m, d) in ((9999, 13, 1), (9999, 12, 32), (9999, 12, 400), (9998, 25, 1), (9999, 1, 366), (9999, 24, 31), (9990, 130, 1)):
+            o = book.value(0, 'D1', [(0, 'A1', y), (0, 'B1', m), (0, 'C1', d)])
+            r.ev()
+            r.count('dates_beyond_the_calendar')
+            nt += 1
+            if not (o.ok and o.value == '#NUM!'):
+                report(r, ID, None, {'fn': 'DATE', 'y': y, 'm': m, 'd': d}, o.brief(), '#NUM!', monitor='calendar-closed-form')
+        for (y, m, d) in ((9999, 12, 31), (9998, 24, 31), (9999, 11, 61)):
+            o = book.value(0, 'D1', [(0, 'A1', y), (0, 'B1', m), (0, 'C1', d)])
+            r.ev()
+            if not outcome_matches(o, [dt.datetime(9999, 12, 31)]):
+                report(r, ID, None, {'fn': 'DATE', 'y': y, 'm': m, 'd': d}, o.brief(), dt.datetime(9999, 12, 31), monitor='calendar-closed-form')
     r.nontrivial_disjoint += nt
     r.sample({'fn': 'DATE', 'year': years[0], 'months': [-30, 40], 'days': [-400, 500]})
 
